@@ -1321,7 +1321,7 @@ class Gen(object):
             n = n.elt
         if not dims or not (isinstance(n, ast.Constant) and n.value is None):
             return None
-        dims = [self.expr(d, path) for d in reversed(dims)]          # outermost first
+        dims = [self.expr(d, path) for d in dims]          # outermost first (the top-level comprehension carries the outer range)
         t = self.c['locals'][st.targets[0].id]
         depth, tt = 0, t
         while isinstance(tt, tuple) and tt[0] == 'list':
